@@ -53,6 +53,8 @@ func (o pgOp) String() string {
 		return fmt.Sprintf("h%d.Get(%s)", o.H, o.Key)
 	case "dump":
 		return fmt.Sprintf("h%d.Dump(%s)+walk", o.H, o.Key)
+	case "ensure":
+		return fmt.Sprintf("h%d.ensureTable (the set-up step of Connect)", o.H)
 	case "prefix", "session", "lang":
 		return fmt.Sprintf("h%d.Set%s(%q)", o.H, o.Kind, o.Arg)
 	}
@@ -65,6 +67,10 @@ func genPgHistory(t *tape.Tape) []pgOp {
 	valN := 0
 	keys := []string{"k1", "k2"}
 	units := t.Range(1, 5)
+	if t.Chance(1, 3) {
+		// the table set-up that Connect performs, reached through the guarded hook in /repo
+		ops = append(ops, pgOp{H: t.Int(nh), Kind: "ensure"})
+	}
 	for u := 0; u < units; u++ {
 		t.Begin("unit")
 		h := t.Int(nh)
@@ -284,6 +290,14 @@ func runPgHistory(ops []pgOp, faults map[int]int) *pgResult {
 			pm, pat = world.Guard(func() { err = h.store.Put(ctx, []byte(op.Key), []byte(op.Val)) })
 		case "get":
 			pm, pat = world.Guard(func() { got, err = h.store.Get(ctx, []byte(op.Key)) })
+		case "ensure":
+			en, ok := h.store.(interface {
+				VerifEnsureTable(context.Context) error
+			})
+			if !ok {
+				panic("infrastructure: db/postgres was built without the verif hook")
+			}
+			pm, pat = world.Guard(func() { err = en.VerifEnsureTable(ctx) })
 		case "dump":
 			pm, pat = world.Guard(func() {
 				var d *db.Dumper
